@@ -38,7 +38,7 @@ def Label.harmless : Label → Bool
   | .s (.fwd _) | .s (.exit _) | .s .lock | .s .unlock => false
   | _ => true
 
-theorem strip_init (v g f n b t0) : strip (init v g f n b t0) = init v g f n b t0 := by simp [strip, init, stripSpc]
+theorem strip_init (v g sw f n b t0) : strip (init v g sw f n b t0) = init v g sw f n b t0 := by simp [strip, init, stripSpc]
 
 theorem stripSpc_off {p : SPC} : stripSpc p = .off ↔ p = .off := by cases p <;> simp [stripSpc]
 theorem stripSpc_cancelled {p : SPC} : stripSpc p = .cancelled ↔ p = .cancelled := by cases p <;> simp [stripSpc]
@@ -49,6 +49,29 @@ theorem strip_kept {s s' : St} {l : Label} (hl : l.erased = false) (hs : step s 
   have hx := step_live hs
   have hx' : (strip s).exited = none := hx
   cases l with
+  | g a =>
+    have hd := step_wd hs
+    rw [step_of_wd hx']
+    cases a with
+    | lockT =>
+      simp only [gStep] at hd ⊢
+      split at hd <;> simp at hd; subst hd
+      rename_i k ht hg
+      have e1 : (strip s).thd = .none := by simp [strip, ht]
+      have e2 : (strip s).gpc = .at k := hg
+      simp only [e1, e2]; simp [strip]
+    | unlockT =>
+      simp only [gStep] at hd ⊢
+      split at hd <;> simp at hd; subst hd
+      rename_i k hg
+      have e2 : (strip s).gpc = .inside k := hg
+      simp only [e2]; rfl
+    | wake =>
+      simp only [gStep] at hd ⊢
+      split at hd <;> simp at hd; subst hd
+      rename_i hg
+      have e2 : (strip s).gpc = .sleeping := hg
+      simp only [e2]; rfl
   | s a => simp [Label.erased] at hl
   | e a =>
     cases a with
@@ -79,9 +102,33 @@ theorem strip_kept {s s' : St} {l : Label} (hl : l.erased = false) (hs : step s 
     cases a with
     | createS =>
       simp only [dStep] at hd ⊢
-      split at hd <;> simp at hd; subst hd
-      rename_i hoff
-      simp [strip, hoff, stripSpc]
+      split at hd <;> (try split at hd) <;> simp at hd; subst hd
+      rename_i hoff hg
+      have e1 : (strip s).spc = .off := by simp [strip, hoff, stripSpc]
+      have e2 : ¬ ((strip s).sw = true ∧ (strip s).gpc = .off) := hg
+      simp only [e1]; rw [if_neg e2]; simp [strip, stripSpc]
+    | createG =>
+      simp only [dStep] at hd ⊢
+      split at hd <;> (try split at hd) <;> simp at hd; subst hd
+      rename_i hg hoff hsw
+      have e1 : (strip s).spc = .off := by simp [strip, hoff, stripSpc]
+      have e2 : (strip s).gpc = .off := hg
+      have e3 : (strip s).sw = true := hsw
+      simp only [e1, e2, e3, if_true]; simp [strip, hoff, hsw, stripSpc] <;> rfl
+    | cancelG =>
+      simp only [dStep] at hd ⊢
+      split at hd <;> (try split at hd) <;> simp at hd; subst hd
+      rename_i hdp hg
+      have e1 : (strip s).dpc = .finishing := hdp
+      have e2 : (strip s).sw = true ∧ (strip s).gcan = false := hg
+      simp only [e1]; rw [if_pos e2]; simp [strip, hdp] <;> rfl
+    | joinG =>
+      simp only [dStep] at hd ⊢
+      split at hd <;> (try split at hd) <;> simp at hd; subst hd
+      rename_i hdp hg
+      have e1 : (strip s).dpc = .finishing := hdp
+      have e2 : (strip s).gcan = true ∧ (strip s).gpc = .ended ∧ (strip s).gjoin = false := hg
+      simp only [e1]; rw [if_pos e2]; simp [strip, hdp]
     | lock =>
       simp only [dStep] at hd ⊢
       split at hd
@@ -156,8 +203,12 @@ theorem strip_kept {s s' : St} {l : Label} (hl : l.erased = false) (hs : step s 
       split at hd <;> (try split at hd) <;> simp at hd; subst hd
       rename_i hdp hc
       have e1 : (strip s).dpc = .finishing := hdp
-      have e2 : ¬ (strip s).spc = .cancelled := fun h => hc (stripSpc_cancelled.mp h)
-      simp only [e1, e2, if_false]; simp [strip, hdp, stripSpc]
+      have e2 : ¬ ((strip s).spc = .cancelled ∨ ((strip s).sw = true ∧ (strip s).gjoin = false)) := by
+        intro h; apply hc
+        rcases h with h | h
+        · exact Or.inl (stripSpc_cancelled.mp h)
+        · exact Or.inr h
+      simp only [e1]; rw [if_neg e2]; simp [strip, hdp, stripSpc]
     | ret =>
       simp only [dStep] at hd ⊢
       split at hd <;> (try split at hd) <;> simp at hd; subst hd
@@ -172,6 +223,7 @@ theorem strip_erased {s s' : St} {l : Label} (hm : MInv s) (hl : l.erased = true
   cases l with
   | d a => simp [Label.erased] at hl
   | w i a => simp [Label.erased] at hl
+  | g a => simp [Label.erased] at hl
   | e a =>
     cases a with
     | tick v => simp [Label.erased] at hl
